@@ -408,12 +408,12 @@ pub fn run(r: &mut Report, ctx: &Ctx) {
         let streams = Stream::all(seed);
         r.section(
             "prefix-lengths",
-            "prefixes S[..n] for every n up to the bound (fed byte by byte), five streams, every variant, all 32 options: finalize vs reference at every n; distinct by (variant,stream,n); non-trivial = states with at least one Ok outcome",
-            &format!("n in 0..={top} x 5 streams x 5 variants x 32 options"),
+            "prefixes S[..n] for every n up to the bound (fed byte by byte), six streams, every variant, all 32 options: finalize vs reference at every n; distinct by (variant,stream,n); non-trivial = states with at least one Ok outcome",
+            &format!("n in 0..={top} x 6 streams x 5 variants x 32 options"),
             true,
             |s| {
                 let streams = &streams;
-                s.acc = par_for(25, 1, |idx, acc| {
+                s.acc = par_for(5 * streams.len() as u64, 1, |idx, acc| {
                     let v = (idx % 5) as usize;
                     let st = streams[(idx / 5) as usize];
                     let key_base = idx << 40;
@@ -441,13 +441,13 @@ pub fn run(r: &mut Report, ctx: &Ctx) {
             r.section(
                 "prefix-lengths-windows",
                 "as prefix-lengths, for every n within +-8 of each power of two and each length-code boundary in (4096, 2^24]; streams really fed; non-trivial = states with at least one Ok outcome",
-                &format!("{} windows x 17 lengths x 5 streams x 5 variants x 32 options", windows.len()),
+                &format!("{} windows x 17 lengths x 6 streams x 5 variants x 32 options", windows.len()),
                 true,
                 |s| {
                     let streams = &streams;
                     let windows = &windows;
                     let nw = windows.len() as u64;
-                    s.acc = par_for(25 * nw, 1, |idx, acc| {
+                    s.acc = par_for(5 * streams.len() as u64 * nw, 1, |idx, acc| {
                         let w = windows[(idx % nw) as usize];
                         let v = ((idx / nw) % 5) as usize;
                         let st = streams[(idx / nw / 5) as usize];
